@@ -71,6 +71,7 @@ type Val struct {
 	Iter     *IterInfo
 	Guard    string // lock key guarding the contents designated by this value (maps/slices from guarded fields)
 	Fresh    bool   // freshly allocated on this path (maps, objects)
+	Origin   string // heap field array the value was loaded from
 }
 
 type Deferred struct {
@@ -105,6 +106,8 @@ type Frame struct {
 	useCtx  *useCtx
 	bound   []string // quantified variables (ModeContractUse / pure-forall)
 	selfRun bool     // frame is the inlined target of a contract self-call
+	isInit  bool
+	stopAt  *ssa.BasicBlock
 }
 
 func (f *Frame) clone() *Frame {
@@ -157,10 +160,11 @@ type State struct {
 	dead     bool
 	events   []Event
 	ghost    map[string]string // named ghost scalars (terms)
+	lit      map[string]map[string]Val // heap array -> literal index -> stored value (fresh objects)
 }
 
 func newState() *State {
-	return &State{heap: map[string]string{}, cells: map[*Cell]Val{}, globals: map[*ssa.Global]Val{}, held: map[string]int{}, released: map[string]bool{}, ghost: map[string]string{}}
+	return &State{heap: map[string]string{}, cells: map[*Cell]Val{}, globals: map[*ssa.Global]Val{}, held: map[string]int{}, released: map[string]bool{}, ghost: map[string]string{}, lit: map[string]map[string]Val{}}
 }
 
 func (s *State) clone() *State {
@@ -187,6 +191,14 @@ func (s *State) clone() *State {
 	t.released = make(map[string]bool, len(s.released))
 	for k, v := range s.released {
 		t.released[k] = v
+	}
+	t.lit = make(map[string]map[string]Val, len(s.lit))
+	for k, v := range s.lit {
+		m := make(map[string]Val, len(v))
+		for a, b := range v {
+			m[a] = b
+		}
+		t.lit[k] = m
 	}
 	t.ghost = make(map[string]string, len(s.ghost))
 	for k, v := range s.ghost {
@@ -252,6 +264,7 @@ type Run struct {
 	pureDepth int
 	curCon   *Contract
 	closable map[string]bool
+	inInit   bool
 }
 
 func (x *Run) unsupported(what string, pos token.Pos) {
@@ -356,6 +369,7 @@ func (x *Run) havocArr(st *State, name string) {
 		return
 	}
 	st.heap[name] = x.d.fresh(name+"$h", s)
+	delete(st.lit, name)
 }
 
 // havocAll forgets the whole modelled heap.
@@ -367,6 +381,7 @@ func (x *Run) havocAll(st *State) {
 	st.epoch = 1000 + x.cellN
 	x.mu.Unlock()
 	st.heap = map[string]string{}
+	st.lit = map[string]map[string]Val{}
 }
 
 func (x *Run) newCell(name string, ty types.Type) *Cell {
